@@ -117,59 +117,56 @@ func searchFieldId(p *binary.BinaryProtocol, id proto.FieldNumber, messageLen in
 	return p.Read, errNotFound
 }
 
-// searchIndex in LIST Node
-// packed: if idx is found, return the element[V] value start position, otherwise return the end of p.Buf
-// unpacked: if idx is found, return the element[TLV] tag position, otherwise return the end of p.Buf
+// searchIndex in LIST Node, p.Read must point to the tag of the first element
+// packed: if idx is found, return the element[V] value start position, otherwise return the end of the packed bytes
+// unpacked: if idx is found, return the element[TLV] tag position, otherwise return the end of the last element
 func searchIndex(p *binary.BinaryProtocol, idx int, elementWireType proto.WireType, isPacked bool, fieldNumber proto.FieldNumber) (int, error) {
-	// packed list
 	cnt := 0
-	result := p.Read
 	if isPacked {
-		// read length
+		// packed Type : [tag][length][value][value][value]....
+		if _, _, _, err := p.ConsumeTag(); err != nil {
+			return 0, err
+		}
 		length, err := p.ReadLength()
 		if err != nil {
 			return 0, err
 		}
-		// read list
-		start := p.Read
-		for p.Read < start+length && cnt < idx {
+		end := p.Read + length
+		if length < 0 || end > len(p.Buf) {
+			return 0, errNode(meta.ErrRead, "searchIndex: packed list exceeds the buffer.", nil)
+		}
+		for p.Read < end && cnt < idx {
 			if err := p.Skip(elementWireType, false); err != nil {
 				return 0, errNode(meta.ErrRead, "searchIndex: skip packed list element error.", err)
 			}
 			cnt++
 		}
-		result = p.Read
-	} else {
-		// normal Type : [tag][(length)][value][tag][(length)][value][tag][(length)][value]....
-		for p.Read < len(p.Buf) && cnt < idx {
-			// don't move p.Read and judge whether readList completely
-			if err := p.Skip(elementWireType, false); err != nil {
-				return 0, errNode(meta.ErrRead, "searchIndex: skip unpacked list element error.", err)
-			}
-			cnt++
-			if p.Read < len(p.Buf) {
-				// don't move p.Read and judge whether readList completely
-				elementFieldNumber, _, n, err := p.ConsumeTagWithoutMove()
-				if err != nil {
-					return 0, err
-				}
-				if elementFieldNumber != fieldNumber {
-					break
-				}
-				if cnt < idx {
-					p.Read += n
-				}
-				result = p.Read + n
-			}
+		if p.Read >= end {
+			return p.Read, errNotFound
 		}
-
+		return p.Read, nil
 	}
 
-	if cnt < idx {
-		return p.Read, errNotFound
+	// normal Type : [tag][(length)][value][tag][(length)][value][tag][(length)][value]....
+	for p.Read < len(p.Buf) {
+		// don't move p.Read and judge whether readList completely
+		elementFieldNumber, _, n, err := p.ConsumeTagWithoutMove()
+		if err != nil {
+			return 0, err
+		}
+		if elementFieldNumber != fieldNumber {
+			break
+		}
+		if cnt == idx {
+			return p.Read, nil
+		}
+		p.Read += n
+		if err := p.Skip(elementWireType, false); err != nil {
+			return 0, errNode(meta.ErrRead, "searchIndex: skip unpacked list element error.", err)
+		}
+		cnt++
 	}
-
-	return result, nil
+	return p.Read, errNotFound
 }
 
 // searchIntKey in MAP Node
@@ -315,10 +312,9 @@ func (self Value) getByPath(pathes ...Path) (Value, []int) {
 		Buf: self.raw(),
 	}
 
-	if !isRoot {
-		if self.t == proto.LIST || self.t == proto.MAP {
-			p.ConsumeTag()
-		}
+	// searchIntKey/searchStrKey start behind the tag of the first pair, searchIndex starts at the tag of the first element
+	if !isRoot && self.t == proto.MAP {
+		p.ConsumeTag()
 	}
 
 	for i, path := range pathes {
@@ -412,8 +408,8 @@ func (self Value) getByPath(pathes ...Path) (Value, []int) {
 			}
 			return errValueOf("invalid value node.", err), address
 		}
-		// if not the last one, it must be a complex node, so need to skip tag
-		if i != len(pathes)-1 {
+		// if not the last one, it must be a complex node, so need to skip tag (searchIndex reads the tag of a LIST itself)
+		if i != len(pathes)-1 && tt != proto.LIST {
 			if _, _, _, err := p.ConsumeTag(); err != nil {
 				return errValue(meta.ErrRead, "invalid field tag failed.", err), address
 			}
